@@ -34,7 +34,11 @@ Proof. unfold powi_neg_guard_bits_gen. lia. Qed.
 Theorem exp_series_guard_ok p B : 2 <= exp_series_guard_digits_gen O p B.
 Proof. unfold exp_series_guard_digits_gen. pose proof (usize_nonneg (f_div O (uint_log2_est O p) (uint_log2_est O B))). lia. Qed.
 Theorem exp_pow_guard_ok p B : 0 <= exp_pow_guard_digits_gen O p B.
-Proof. unfold exp_pow_guard_digits_gen. apply usize_nonneg. Qed.
+Proof.
+  unfold exp_pow_guard_digits_gen, exp_n_gen.
+  pose proof (usize_nonneg (f_mul O (f_mul O (f_of_Z O (bit_len p)) (uint_log2_est O B)) (f_of_Z O 2))).
+  pose proof (Z.pow_nonneg 2 (bit_len p / 2)). lia.
+Qed.
 Theorem exp_work_precisions_ok p sgd pgd md : 2 <= sgd -> 0 <= pgd -> 0 <= md ->
   p < exp_work_precision_neg_gen O p sgd /\ p < exp_work_precision_pos_gen O p sgd /\
   p < exp_work_precision_scaled_gen O p sgd pgd md.
